@@ -15,7 +15,10 @@ FLAVOURS = ["asyncio", "trio", "threading"]
 CONTEXTS = ["outside", "threading", "asyncio", "trio"]
 OUTCOMES = [("return", "None"), ("return", "0"), ("return", "''"), ("return", "[]"),
             ("return", "object"), ("raise", "LookupError"), ("raise", "UserError"),
-            ("raise", "StopAsyncIteration"), ("raise", "TimeoutError"), ("raise", "UserTimeout")]
+            ("raise", "StopAsyncIteration"), ("raise", "TimeoutError"), ("raise", "UserTimeout"),
+            ("raise", "KeyError"), ("raise", "RuntimeError"), ("raise", "TypeError"),
+            ("raise", "AttributeError"), ("raise", "cf.CancelledError"),
+            ("raise", "cf.InvalidStateError"), ("raise", "asyncio.InvalidStateError")]
 ARGS = [((), {}), ((1,), {"k": 2}), ((1, "a"), {}), ((), {"k": 2, "m": None})]
 
 
@@ -40,7 +43,8 @@ class Scenario:
             body = ([("sleep", duration)] if duration else []) + \
                 ([] if tuple(outcome) == ("return", "None") else [tuple(outcome)])
             desc = {"id": "x%d" % index, "flavour": flavour, "steps": body,
-                    "args": ARGS[args_index][0], "kwargs": ARGS[args_index][1]}
+                    "args": ARGS[args_index][0], "kwargs": ARGS[args_index][1],
+                    "plain": bool(params.get("plain"))}
             self.calls.append(desc)
             steps.append(("execute", desc))
 
@@ -122,6 +126,13 @@ class Scenario:
                                    "%s ran in %r, the %s payloads run in %r"
                                    % (ident, (who, data["loop"], data["token"]), flavour,
                                       sorted(contexts[flavour]))))
+            for s2, _n, w2, e2, d2 in log:
+                if e2 == "plain-call" and d2["id"] == ident and flavour in contexts and \
+                        (w2, d2["loop"], d2["token"]) not in contexts[flavour]:
+                    violations.append(("%s:wrong-context:synchronous-part" % key,
+                                       "the synchronous part of %s ran in %r, the %s payloads "
+                                       "run in %r" % (ident, (w2, d2["loop"], d2["token"]),
+                                                      flavour, sorted(contexts[flavour]))))
             how, obj = self.kit.left.get(ident, ("return", None))
             _seq, event, rdata = result[0]
             results.append(event)
@@ -183,6 +194,12 @@ def scenario_params(tier):
         for duration in ((0.0,) if tier == "quick" else (0.0, 0.3)):
             out.append({"context": context,
                         "calls": [(flavour, outcome, next(counter) % len(ARGS), duration)]})
+    # a plain callable whose synchronous first part must run in the runner as well
+    for context, flavour in itertools.product(CONTEXTS, ["asyncio", "trio"]):
+        if allowed(context, flavour):
+            for outcome in (("return", "object"), ("raise", "LookupError")):
+                out.append({"context": context, "plain": True,
+                            "calls": [(flavour, outcome, 1, 0.0)]})
     # the call is the very first step of a payload queued before the runtime starts
     for context, flavour in itertools.product(CONTEXTS[1:], FLAVOURS):
         if allowed(context, flavour):
